@@ -461,6 +461,14 @@ Section RepoParse.
   Qed.
 End RepoParse.
 
+Theorem repo_rejects_other_paths (valid_registry : str -> bool) breg brepo s r :
+  Reference.repo_parse avail valid_registry breg brepo s = Some r -> contains c_slash s = true ->
+  (Reference.parse avail valid_registry s = Some r /\ r_registry r = breg /\ r_repository r = brepo) /\
+  exists c t, s = breg ++ [c_slash] ++ brepo ++ c :: t /\ (c = c_colon \/ c = c_at).
+Proof.
+  intros H Hs. split; [now apply repo_parse_path_is_base | now apply (repo_parse_path_prefix valid_registry breg brepo s r)].
+Qed.
+
 (* ---------- URL slot ---------- *)
 
 (* bytes that would change the structure of a URL path or need escaping:
